@@ -3,7 +3,7 @@
    inductive grammar, and the proof that every such byte string is accepted by
    the model of util::DecodeUTF8 ([utf8_valid]).  The per-row facts are finite
    sweeps over the regenerated constants (vm_compute), lifted by range lemmas. *)
-From PP Require Import Fold.FoldDefs Unicode.Utf8Enc.
+From PP Require Import Fold.Utf8Scan Unicode.Utf8Enc.
 (* (no dependency on Fold/FoldProofs.v: the sweeps below are expensive and must only be
    re-run when the scanner model or its regenerated constants change) *)
 From Coq Require Import ZifyBool.
